@@ -217,6 +217,9 @@ def _extract_dof_A_diag(
 
 @wp.kernel
 def _finalize_dof_invweight0(
+  body_simple: wp.array[int],
+  body_mass: wp.array2d[float],
+  dof_bodyid: wp.array[int],
   dof_jntid: wp.array[int],
   jnt_type: wp.array[int],
   jnt_dofadr: wp.array[int],
@@ -226,6 +229,13 @@ def _finalize_dof_invweight0(
   worldid, dofid = wp.tid()
   dof_invweight0_id = worldid % dof_invweight0_out.shape[0]
   dof_A_diag_id = worldid % dof_A_diag_in.shape[0]
+
+  # sliders-only body with diagonal M (mj_setConst): 1 / body mass
+  bodyid = dof_bodyid[dofid]
+  if body_simple[bodyid] == 2:
+    mass = body_mass[worldid % body_mass.shape[0], bodyid]
+    dof_invweight0_out[dof_invweight0_id, dofid] = 1.0 / wp.max(mujoco.mjMINVAL, mass)
+    return
 
   jntid = dof_jntid[dofid]
   jtype = jnt_type[jntid]
@@ -339,6 +349,8 @@ def _compute_body_A_diag_entry(
 @wp.kernel
 def _finalize_body_invweight0(
   body_weldid: wp.array[int],
+  body_simple: wp.array[int],
+  body_mass: wp.array2d[float],
   body_A_diag_in: wp.array3d[float],
   body_invweight0_out: wp.array2d[wp.vec2],
 ):
@@ -349,6 +361,12 @@ def _finalize_body_invweight0(
   # World body and static bodies have zero invweight
   if bodyid == 0 or body_weldid[bodyid] == 0:
     body_invweight0_out[body_invweight0_id, bodyid] = wp.vec2(0.0, 0.0)
+    return
+
+  # sliders-only body with diagonal M (mj_setConst): 1 / body mass, no rotation
+  if body_simple[bodyid] == 2:
+    mass = body_mass[worldid % body_mass.shape[0], bodyid]
+    body_invweight0_out[body_invweight0_id, bodyid] = wp.vec2(1.0 / wp.max(mujoco.mjMINVAL, mass), 0.0)
     return
 
   # Average diagonal: trans = (A[0,0]+A[1,1]+A[2,2])/3, rot = (A[3,3]+A[4,4]+A[5,5])/3
@@ -713,7 +731,7 @@ def set_const_0(m: types.Model, d: types.Data, restore: bool = True):
     wp.launch(
       _finalize_dof_invweight0,
       dim=(m.dof_invweight0.shape[0], m.nv),
-      inputs=[m.dof_jntid, m.jnt_type, m.jnt_dofadr, dof_A_diag],
+      inputs=[m.body_simple, m.body_mass, m.dof_bodyid, m.dof_jntid, m.jnt_type, m.jnt_dofadr, dof_A_diag],
       outputs=[m.dof_invweight0],
     )
 
@@ -756,7 +774,7 @@ def set_const_0(m: types.Model, d: types.Data, restore: bool = True):
     wp.launch(
       _finalize_body_invweight0,
       dim=(m.body_invweight0.shape[0], m.nbody),
-      inputs=[m.body_weldid, body_A_diag],
+      inputs=[m.body_weldid, m.body_simple, m.body_mass, body_A_diag],
       outputs=[m.body_invweight0],
     )
   else:
